@@ -7,6 +7,7 @@ mod model;
 mod pipeline;
 mod refmodel;
 mod rsview;
+mod l2;
 mod tape;
 
 use driver::{Ctx, DynProp, Tier, Verdict};
@@ -19,6 +20,21 @@ struct Check {
 
 fn registry() -> Vec<Check> {
     vec![
+        Check {
+            id: "C01",
+            run: checks::c01::run,
+            props: checks::c01::props,
+        },
+        Check {
+            id: "C02",
+            run: checks::c02::run,
+            props: checks::c02::props,
+        },
+        Check {
+            id: "C13",
+            run: checks::c13::run,
+            props: checks::c13::props,
+        },
         Check {
             id: "C03",
             run: checks::c03::run,
